@@ -386,3 +386,68 @@ UNARY_SMOOTH = sorted(list(_U1) + list(_M1))
 BINARY = sorted(_U2)
 COMMUTATIVE = {"add", "multiply", "maximum", "minimum", "logaddexp", "logaddexp2", "add_sequence", "multiply_sequence"}
 VIEW_FNS = {n for n, s in SPECS.items() if s.view}
+
+# --------------------------------------------------------------------------------------- nnet layers and losses (references: refs_nnet)
+from mgverif import refs_nnet as _R
+from mygrad.nnet import layers as _lay, losses as _loss
+
+
+def _conv_ref(x, w, stride=1, padding=0, dilation=1):
+    return _R.conv_ref(F(x), F(w), stride, padding, dilation)
+
+
+def _pool_gap(x, pool, stride):
+    x = F(x)
+    win = _R.swv_ref(x, tuple(pool), stride, None)
+    k = len(tuple(pool))
+    flat = win.reshape(win.shape[: win.ndim - k] + (-1,))
+    if flat.shape[-1] < 2:
+        return True
+    v = np.sort(flat, axis=-1)
+    return bool(np.all(v[..., -1] - v[..., -2] > 0.05))
+
+
+Spec("conv_nd", "conv", _lay.conv_nd, _conv_ref)
+Spec("max_pool", "pool", _lay.max_pool, lambda x, pool, stride: _R.max_pool_ref(F(x), tuple(pool), stride), dom=_pool_gap)
+Spec("batchnorm", "batchnorm", _lay.batchnorm, lambda x, gamma=None, beta=None, eps=1e-8: _R.batchnorm_ref(F(x), None if gamma is None else F(gamma),
+                                                                                                      None if beta is None else F(beta), eps))
+
+
+def _gru_mg(*a, **k):
+    from mygrad.nnet.layers.gru import gru
+    return gru(*a, **k)
+
+
+Spec("gru", "gru", _gru_mg, lambda *a, s0=None, **k: _R.gru_ref(*[F(q) for q in a], s0=None if s0 is None else F(s0)))
+
+
+def _dom_hinge(x, y, hinge=1.0, **k):
+    x = F(x)
+    y = np.asarray(y)
+    m = x - x[np.arange(len(y)), y][:, None] + hinge
+    m[np.arange(len(y)), y] = 1.0
+    return bool(np.all(np.abs(m) > 0.05))
+
+
+def _dom_margin(x1, x2, y, margin, **k):
+    x1, x2 = F(x1), F(x2)
+    yy = F(y)
+    yy = yy[:, None] if (yy.ndim == 1 and x1.ndim == 2) else yy
+    return bool(np.all(np.abs(margin - yy * (x1 - x2)) > 0.05))
+
+
+def _dom_probs(p, *a, **k):
+    p = F(p)
+    return bool(np.all(p > 0.05) and np.all(p < 0.95))
+
+
+Spec("softmax_crossentropy", "loss", _loss.softmax_crossentropy, lambda x, y: _R.softmax_crossentropy_ref(F(x), np.asarray(y)))
+Spec("negative_log_likelihood", "loss", _loss.negative_log_likelihood,
+     lambda x, y, weights=None: _R.negative_log_likelihood_ref(F(x), np.asarray(y), None if weights is None else F(weights)))
+Spec("multiclass_hinge", "loss", _loss.multiclass_hinge, lambda x, y, hinge=1.0: _R.multiclass_hinge_ref(F(x), np.asarray(y), hinge), dom=_dom_hinge)
+Spec("margin_ranking_loss", "loss", _loss.margin_ranking_loss, lambda x1, x2, y, margin: _R.margin_ranking_loss_ref(F(x1), F(x2), F(y), margin),
+     dom=_dom_margin)
+Spec("focal_loss", "loss", _loss.focal_loss, lambda p, y, alpha=1, gamma=0: _R.focal_loss_ref(F(p), np.asarray(y), alpha, gamma), dom=_dom_probs)
+Spec("softmax_focal_loss", "loss", _loss.softmax_focal_loss, lambda x, y, alpha=1, gamma=0: _R.softmax_focal_loss_ref(F(x), np.asarray(y), alpha, gamma))
+LAYER_FNS = ["conv_nd", "max_pool", "batchnorm", "gru"]
+LOSS_FNS = ["softmax_crossentropy", "negative_log_likelihood", "multiclass_hinge", "margin_ranking_loss", "focal_loss", "softmax_focal_loss"]
